@@ -120,3 +120,20 @@ Proof.
     unfold entry_eqb, opt_bytes_eqb. rewrite !N.eqb_refl. destruct (e_data e); [rewrite bytes_eqb_refl|]; reflexivity. }
   rewrite G. reflexivity.
 Qed.
+
+Lemma ents_eqb_refl l : ents_eqb l l = true.
+Proof.
+  induction l as [|e l IHl]; [reflexivity|]. cbn [ents_eqb]. rewrite IHl.
+  unfold entry_eqb, opt_bytes_eqb. rewrite !N.eqb_refl. destruct (e_data e); [rewrite bytes_eqb_refl|]; reflexivity.
+Qed.
+
+(* the ops-level oracle the runner applies to reads of fully synced directories *)
+Corollary spec_read_ok_written meta ops segsize :
+  meta_ok meta -> Forall op_ok ops -> segsize mod 8 = 0 ->
+  spec_read_ok meta ops (read_all true 0 0 (map file_bytes (w_files segsize (w_run meta ops)))) = true.
+Proof.
+  intros Hm Hops Hseg. unfold spec_read_ok.
+  destruct (spec_run ops) as [[log hs]|] eqn:E; [|reflexivity].
+  rewrite (roundtrip meta ops segsize log hs Hm Hops Hseg E).
+  rewrite bytes_eqb_refl, ents_eqb_refl. unfold hs_eqb. rewrite !N.eqb_refl. reflexivity.
+Qed.
